@@ -2628,7 +2628,12 @@ func (e *Engine) CreateIterator(ctx context.Context, measurement string, opt que
 				refOpt.Ordered = true
 				refOpt.Expr = call.Args[0]
 
-				itrs, err := e.createVarRefIterator(ctx, measurement, refOpt)
+				// Take the first / last point of every series and let the call
+				// iterator choose among them. A limit on the merged series of a tag
+				// set would keep the first points in merge order only, so with
+				// several series tied at the extreme time the value returned
+				// depended on the series keys instead of the selector's tie-break.
+				itrs, err := e.createVarRefIteratorLimit(ctx, measurement, refOpt, true)
 				if err != nil {
 					return nil, err
 				}
@@ -2738,6 +2743,13 @@ func (e *Engine) createCallIterator(ctx context.Context, measurement string, cal
 
 // createVarRefIterator creates an iterator for a variable reference.
 func (e *Engine) createVarRefIterator(ctx context.Context, measurement string, opt query.IteratorOptions) ([]query.Iterator, error) {
+	return e.createVarRefIteratorLimit(ctx, measurement, opt, false)
+}
+
+// createVarRefIteratorLimit creates an iterator for a variable reference. With
+// seriesLimitOnly the limit is applied to every series and not to the merged
+// series of a tag set.
+func (e *Engine) createVarRefIteratorLimit(ctx context.Context, measurement string, opt query.IteratorOptions, seriesLimitOnly bool) ([]query.Iterator, error) {
 	ref, _ := opt.Expr.(*influxql.VarRef)
 
 	if exists, err := e.index.MeasurementExists([]byte(measurement)); err != nil {
@@ -2785,7 +2797,7 @@ func (e *Engine) createVarRefIterator(ctx context.Context, measurement string, o
 			// is different than the current grouping, we need to perform the
 			// limit on each of the individual series keys instead to improve
 			// performance.
-			if (opt.Limit > 0 || opt.Offset > 0) && len(opt.Dimensions) != len(opt.GroupBy) {
+			if (opt.Limit > 0 || opt.Offset > 0) && (seriesLimitOnly || len(opt.Dimensions) != len(opt.GroupBy)) {
 				for i, input := range inputs {
 					inputs[i] = newLimitIterator(input, opt)
 				}
@@ -2798,7 +2810,7 @@ func (e *Engine) createVarRefIterator(ctx context.Context, measurement string, o
 			}
 
 			// Apply a limit on the merged iterator.
-			if opt.Limit > 0 || opt.Offset > 0 {
+			if !seriesLimitOnly && (opt.Limit > 0 || opt.Offset > 0) {
 				if len(opt.Dimensions) == len(opt.GroupBy) {
 					// When the final dimensions and the current grouping are
 					// the same, we will only produce one series so we can use
